@@ -287,7 +287,7 @@ def check_history(ctx, hist, path, events, results, det, feats, order_key="seq")
     out_name = os.path.basename(path)
     pending_row = {}
     for e in evs:
-        if e["op"] == "write" and e["obj"] == "panoptica_aggregator_tmp.tsv" or (e["op"] == "write" and e["obj"].endswith("_tmp.tsv")):
+        if e["op"] == "write" and e["obj"] == "panoptica_aggregator_tmp.tsv" or (e["op"] == "write" and (e["obj"].endswith("_tmp.tsv") or e["obj"].endswith(".panoptica_aggregator_tmp"))):
             n = e["info"]["data"].split("\t")[0].strip()
             claims[n] = claims.get(n, 0) + 1
         elif e["op"] == "write" and e["obj"] == out_name:
